@@ -48,6 +48,8 @@ def reexpress(rng, q, cyc):
     us = S.units(kind)
     cyc[kind] = (cyc.get(kind, rng.randrange(len(us))) + 1) % len(us)
     u2 = us[cyc[kind]]
+    if u2 == u:
+        return q                  # same unit: nothing to re-express (and (v*f)/f would perturb v by an ulp)
     if kind == 'Angle' and q[1] in (14.5, 20, 25, 30) and u == 'deg' and rng.random() < 0.5:
         return q
     return [kind, v * S.ffactor(kind, u) / S.ffactor(kind, u2), u2]
@@ -88,7 +90,8 @@ def search(pid, tier, seed, escalate, hints):
         if (r1['err'] is None) != (r2['err'] is None) or (r1['err'] and r1['err'] != r2['err']):
             if r1.get('build_failed') or r2.get('build_failed'):
                 msg = (r1.get('errmsg') or '') + (r2.get('errmsg') or '')
-                if 'different helix angles' in msg or 'different modules' in msg or 'different pressure angles' in msg:
+                if 'different helix angles' in msg or 'different modules' in msg or 'different pressure angles' in msg or \
+                        ("'pressure_angle' not available" in msg and tabulated_pa(sc2)):
                     out.append(W('D5', f'equal magnitudes in different units compare as different: original {r1["err"] or "builds"}, re-expressed {r2["err"] or "builds"}: {msg[:160]}'))
                     continue
             if threshold_fragile(sc, r1) or threshold_fragile(sc2, r2):
@@ -105,6 +108,7 @@ def search(pid, tier, seed, escalate, hints):
         if len([w for w in out if w['cls'] != 'D5']) >= 5:
             break
     # constructors and relations: the same declaration history with re-expressed angles / lengths
+    rng = random.Random(seed * 617 + 11)          # its own stream: the cases do not depend on where the loop above stopped
     for i in range(n):
         c = fam_rel.gen_case(rng)
         c2 = copy.deepcopy(c)
@@ -122,6 +126,11 @@ def search(pid, tier, seed, escalate, hints):
             if x['err'] != y['err']:
                 if near_threshold_call(c, j):
                     break
+                if 'different' in x['msg'] + y['msg'] and x['err'] in (None, 'ValueError') and y['err'] in (None, 'ValueError') and \
+                        band_explains((c2 if y['err'] else c)['elems'], c['calls'][j]):
+                    out.append(dict(cls='D5', what=f'call {j} {c["calls"][j]}: equal magnitudes in different units compare as different: {x["msg"] or "accepted"} / {y["msg"] or "accepted"}',
+                                    case=dict(elems=c['elems'], calls=c['calls'], reexpressed=c2['elems'])))
+                    break
                 out.append(dict(cls='relation-outcome', what=f'call {j} {c["calls"][j]}: {x["err"] or "accepted"} vs {y["err"] or "accepted"} after re-expressing angles/modules', case=dict(elems=c['elems'], calls=c['calls'], reexpressed=c2['elems'])))
                 break
             bad = False
@@ -132,9 +141,31 @@ def search(pid, tier, seed, escalate, hints):
             if bad:
                 out.append(dict(cls='relation-state', what=f'call {j} {c["calls"][j]}: link state differs after re-expressing angles/modules', case=dict(elems=c['elems'], calls=c['calls'], reexpressed=c2['elems'])))
                 break
-        if len(out) >= 5:
+        if len([w for w in out if w['cls'] != 'D5']) >= 5:
             break
     return out, k
+
+
+def band_explains(elems, call):
+    """can the absolute 1e-12 band (D5) explain that equal magnitudes compared as different?  Only when a compared value is large
+    enough in its unit for rounding of the conversion to reach 1e-12"""
+    big = 0.0
+    for i in call[1:3]:
+        for key in ('module', 'helix', 'pa'):
+            if isinstance(i, int) and key in elems[i] and elems[i][key] is not None:
+                big = max(big, abs(elems[i][key][1]))
+    return big >= 1000
+
+
+def tabulated_pa(sc):
+    """every worm / wheel pressure angle of the scenario is a tabulated angle (up to 1e-9 relative) — its rejection in some unit is the
+    absolute comparison band of D5, not a different angle"""
+    for e in sc['elems']:
+        if e.get('pa') is not None and e.get('kind') in ('worm', 'wheel'):
+            d = e['pa'][1] * S.ffactor('Angle', e['pa'][2]) / S.ffactor('Angle', 'deg')
+            if min(abs(d - t) for t in (14.5, 20, 25, 30)) > 1e-9 * d:
+                return False
+    return True
 
 
 def near_threshold_call(c, j):
@@ -154,6 +185,13 @@ def near_threshold_call(c, j):
             if min(abs(eff1), abs(eff1 - 1), abs(eff2), abs(eff2 - 1)) < 1e-9:
                 return True
     if call[0] == 'gear':
+        # two compared parameters that are unequal but within rounding of each other: "equal or different" is a threshold decision
+        a, b = c['elems'][call[1]], c['elems'][call[2]]
+        for key, kind in (('module', 'Length'), ('helix', 'Angle'), ('pa', 'Angle')):
+            if a.get(key) is not None and b.get(key) is not None:
+                x, y = a[key][1] * S.ffactor(kind, a[key][2]), b[key][1] * S.ffactor(kind, b[key][2])
+                if a[key] != b[key] and abs(abs(x) - abs(y)) <= 1e-9 * max(abs(x), abs(y)):
+                    return True
         return call[3] in (0, 1) or abs(call[3] - 1) < 1e-6
     return False
 
